@@ -590,11 +590,13 @@ func (c *Core) Finish(s *Sim) {
 	}
 	// ---- C02 / recovered panics
 	for _, st := range c.recovered {
-		fn, where, inSUT := panicSite(st)
-		if inSUT {
-			s.Violate("C02", "recovered-panic", where, fmt.Sprintf("connection-level recover swallowed a panic raised in %s (%s)", fn, where))
-		} else {
-			s.Probe("handler-panic-recovered")
+		fn, where := st, "?"
+		if k := strings.LastIndex(st, " "); k > 0 {
+			fn, where = st[:k], st[k+1:]
+		}
+		s.Violate("C02", "recovered-panic", where, fmt.Sprintf("the recover swallowed a panic raised in gldap's own code: %s (%s)", fn, where))
+		if c.Cfg.Prop == "C07" {
+			s.Probe("C07-panic-in-gldap-recovered")
 		}
 	}
 }
